@@ -10,7 +10,7 @@
    a killed process never runs it.  The property as a whole stays partial (manifest): the
    events are what reqwest/hyper/tokio deliver, persist is one step by the kernel's rename
    atomicity, a concurrently writing second process is outside the model. *)
-From RM Require Import C09.Grammar C10.Model C16.Model C16.Proofs C16.Rehit C16.Driver C16.Shared C16.SharedProofs C16.Refine Gen.C16Ops.
+From RM Require Import C09.Grammar C10.Model C16.Model C16.Proofs C16.Rehit C16.Driver C16.Shared C16.SharedProofs C16.SharedProofs2 C16.Refine Gen.C16Ops.
 Open Scope Z_scope.
 
 Section Statements.
@@ -375,3 +375,18 @@ Example c16_nonvacuous_commit_program :
   let r := run_ops env_ok 3 [65] [104] g commit_ops in
   snd r = true /\ m_cache (fst r) = Some (File (cached_form [65] [104])) /\ m_tmp (fst r) 3 = None.
 Proof. vm_compute. repeat split; reflexivity. Qed.
+
+(* Provenance, for every schedule: the step that makes a file appear (or change) at the shared cache
+   path is a step of a client i inside commit_cache_file — its persist — and the file is the committed
+   form of exactly the body client i received before the clean end of its response, which the parser
+   accepted as a whole, annotated with the URL of the server client i is talking to. *)
+Theorem c16_shared_new_entry_provenance :
+  forall (T : Type) (parse : bytes -> option (T * option bytes)) (c0 : option node) f srv sched i a cc,
+  m_cache f = c0 -> (forall i, m_tmp f i = None) ->
+  let s := mrun T parse create_ops commit_ops (minit T f srv) sched in
+  m_cache (ms_fs (mstep T parse create_ops commit_ops s (i, a))) = Some (File cc) ->
+  m_cache (ms_fs s) <> Some (File cc) ->
+  exists ops body t x, c_ph (ms_cl s i) = CCommit ops body t /\ parse body = Some (t, x) /\
+                       cc = cached_form body (url_of T (ms_cl s i)).
+Proof. exact (fun T parse c0 => shared_new_entry_provenance T parse create_ops commit_ops eq_refl eq_refl c0). Qed.
+Print Assumptions c16_shared_new_entry_provenance.
